@@ -53,7 +53,7 @@ print(f"C20 {tier}: histories={hist} transitions={trans} violations={nviol}")
 ev = {"property_id": "C20", "tier": tier, "seed": int(os.environ.get("VERIF_SEED", "0") or 0), "level": "model_checking",
       "coverage": {"states": max(hist, 1), "transitions": max(trans, 1), "traces_validated_against_impl": hist, "samples": samples[:6] or ["none"],
                    "evaluations": max(hist, 1), "distinct_nontrivial": max(hist, 2),
-                   "rule": "every history up to the plan's depth over 28 operations {arrival of a template message, of a data message with one field of every renderable type, of a data message with 2 records; GET /records with count in {absent,0,1,2,4096,4097,-1,x} x format in {json,text} plus default/xml variants; wrong methods; POST /reset; a records query during whose response three messages arrive as early as the store's lock lets them} from start states of 0, 1, 4095 and 4096 stored entries (thorough also 2), the large ones cut from a store that has really seen 3x4096+5 arrivals; run by a driver injected into package main, handlers called directly with httptest recorders, against a window model (last min(4096, arrivals since reset) entries in order); every arrival's rendered entry must show each field as name: value. Histories are distinct by construction",
+                   "rule": "every history up to the plan's depth over 29 operations {arrival of a template message, of a data message with one field of every renderable type (one of them a string full of %-sequences, control characters and quotes), of a data message with 2 records that carry one element twice, of a data message with 3000 records; GET /records with count in {absent,0,1,2,4096,4097,-1,x or a negative number below the smallest int} x format in {json,text} plus default/xml variants; wrong methods; POST /reset; a records query during whose response three messages arrive as early as the store's lock lets them} from start states of 0, 1, 4095 and 4096 stored entries (thorough also 2), the large ones cut from a store that has really seen 3x4096+5 arrivals; run by a driver injected into package main, handlers called directly with httptest recorders, against a window model (last min(4096, arrivals since reset) entries in order); every arrival's rendered entry must show each field as name: value. Histories are distinct by construction",
                    "exhaustive": not infra},
       "assumptions": ["handlers are driven directly (no HTTP server, no signal handler goroutine): the statement is about store and handlers", "an octet-array value may be rendered in any byte notation"],
       "wall_s": round(time.time() - start, 2), "violations": nviol}
